@@ -203,7 +203,9 @@ def readByte (r : Reader) : Reader × UInt8 × Option Err :=
           let r' := { r' with err := e }
           (r'.setEnd, c, e)
 
-/-- `Reader.Seek(off)` on a seekable file, no cache. -/
+/-- `Reader.Seek(off)` on a seekable file, no cache.  The code's test is
+`off.File != bg.current.Base() || !bg.current.hasData()`; on the synchronous path the current block always has
+data after `NewReader` succeeded (a failed load keeps the old buffer), so the second disjunct is constant false. -/
 def seek (r : Reader) (off : Offset) : Reader × Option Err :=
   if off.file ≠ r.cur.base then
     let (b, e) := r.cur.load r.file off.file
